@@ -1,5 +1,5 @@
 SPECIFICATION BSpec
 CONSTANTS MaxLogLen = 3  MaxWidth = 1  MaxGrind = 0
   FieldHashes <- FHAll  Boundary <- BoundaryList
-INVARIANT BoundaryOk EmitBoundary
+INVARIANT BoundaryOk EmitBoundary EmitDegenerate
 CHECK_DEADLOCK FALSE
